@@ -412,3 +412,80 @@ func VX_C19_RealIPAfterSetID(args []int) {
 	vxAssert(len(labels) == 1 && labels[0] == "user:alice|"+want, "the label handed to the forwarder chooser carries the session id and the caller's real IP")
 	vxCover("c19.realip-setid")
 }
+
+func init() { vxRegister("VX_C19_OverlappingProxied", VX_C19_OverlappingProxied) }
+
+// vxHold delays the first reply the gateway writes (a slow pre-write hook).
+type vxHold struct {
+	gate chan struct{}
+	n    int
+}
+
+func (h *vxHold) Name() string { return "vxhold" }
+func (h *vxHold) PreWriteReply(erpc.WriteCtx) *erpc.Status {
+	h.n++
+	if h.n == 1 {
+		<-h.gate
+	}
+	return nil
+}
+
+// VX_C19_OverlappingProxied: two proxied calls overlap in the gateway: the
+// first one's backend reply has arrived and its handler has returned, but its
+// reply to the caller is still held up when the second call is forwarded,
+// answered by the backend and replied. Each caller receives exactly its own
+// backend's body bytes. args: nA, nB (lengths of the two backend replies)
+func VX_C19_OverlappingProxied(args []int) {
+	vxPoolMode(1)
+	cli := erpc.NewPeer(erpc.PeerConfig{})
+	bconn := newVxConn("proxy:9", "backend:1")
+	bsess, st := cli.ServeConn(bconn)
+	vxAssume(st.OK())
+	fwd := &vxFwd{bsess}
+	hold := &vxHold{gate: make(chan struct{})}
+	front := erpc.NewPeer(erpc.PeerConfig{}, NewPlugin(func(*Label) Forwarder { return fwd }), hold)
+	fconn := newVxConn("proxy:1", "caller:7")
+	_, st = front.ServeConn(fconn)
+	vxAssume(st.OK())
+	ra, rb := vxBytes("ra", args[0]), vxBytes("rb", args[1])
+	// call A: forwarded, answered by the backend, its reply to the caller held up
+	fconn.feed(vxFrame(erpc.TypeCall, 11, "/back/a", []byte("qa")))
+	vxWaitIdle()
+	vxAssert(bconn.nWrites() == 1, "A forwarded exactly once")
+	fa, err := vxParse(bconn.writes[0])
+	vxAssume(err == nil)
+	bconn.feed(vxFrame(erpc.TypeReply, fa.Seq(), "", ra))
+	vxWaitIdle()
+	vxAssert(hold.n == 1 && fconn.nWrites() == 0, "A's reply is being held up by the pre-write hook")
+	// call B: complete round trip meanwhile
+	fconn.feed(vxFrame(erpc.TypeCall, 12, "/back/b", []byte("qb")))
+	vxWaitIdle()
+	vxAssert(bconn.nWrites() == 2, "B forwarded exactly once")
+	fb, err := vxParse(bconn.writes[1])
+	vxAssume(err == nil)
+	bconn.feed(vxFrame(erpc.TypeReply, fb.Seq(), "", rb))
+	vxWaitIdle()
+	vxAssert(fconn.nWrites() == 1, "B's caller is answered while A's reply is still held up")
+	close(hold.gate)
+	vxWaitIdle()
+	vxAssert(fconn.nWrites() == 2, "both callers answered exactly once")
+	for _, w := range fconn.writes {
+		m, err := vxParse(w)
+		vxAssert(err == nil && m.Mtype() == erpc.TypeReply && m.StatusOK(), "OK reply")
+		if err != nil {
+			continue
+		}
+		got := vxBodyOf(m)
+		want := ra
+		if m.Seq() == 12 {
+			want = rb
+		}
+		vxAssert(len(got) == len(want), "each caller receives its own backend's body length")
+		for k := range want {
+			if k < len(got) {
+				vxAssert(got[k] == want[k], "each caller receives its own backend's body bytes, whatever other proxied calls were in flight")
+			}
+		}
+	}
+	vxCover("c19.overlapping")
+}
